@@ -133,8 +133,20 @@ func buildCtx(fn *ssa.Function, src Source) (*ctxIn, error) {
 						return nil, fmt.Errorf("path %v: %s is not a struct", fp, t)
 					}
 					found := false
+					// fields are identified by the names they had when the source table was written
+					// (a renamed unexported field is the same field: position-wise alias)
+					var rec []string
+					if n, ok := t.(*types.Named); ok && RecordedFieldNames != nil && n.Obj().Pkg() != nil {
+						if r := RecordedFieldNames(load.Rel(n.Obj().Pkg()) + "." + n.Obj().Name()); len(r) == st.NumFields() {
+							rec = r
+						}
+					}
 					for k := 0; k < st.NumFields(); k++ {
-						if st.Field(k).Name() == name {
+						fname := st.Field(k).Name()
+						if rec != nil {
+							fname = rec[k]
+						}
+						if fname == name {
 							p = p.with(elem{k: 'f', a: int64(k)})
 							t = st.Field(k).Type()
 							found = true
@@ -258,3 +270,6 @@ func (a *Analyzer) RunEntries(entries []Entry) {
 		a.Analyze(e.Fn, e.In)
 	}
 }
+
+// RecordedFieldNames, when set, returns the recorded field names of a named module struct type.
+var RecordedFieldNames func(typeKey string) []string
